@@ -220,6 +220,10 @@ class LoaderConc(Engine):
             "conc s s 10 5 1 expire 5 3 20",
             "conc a a 10 5 2 stale 5 3 12",
             "conc s s 10 5 1 stale 5 3 10",  # exactly at expires_at
+            "conc s s - - 1 tpause 4 1",     # task parked before its map write: a new caller joins the pending load
+            "conc s s - - 1 tpause 4 3",     # task parked after the map write, before the marker removal: a new caller hits
+            "conc a a - - 2 tpause 5 1",
+            "conc a s - - 1 tpause 5 3",
             "conc s s - - 1 late 7",         # F-22 forced
             "conc a a - - 1 late 7",
             "conc s a - - 2 late 3",
@@ -228,7 +232,7 @@ class LoaderConc(Engine):
     def gen(self, rng, tier):
         L, H = rng.pick(["s", "a"]), rng.pick(["s", "a"])
         sh = rng.pick([1, 2, 4])
-        sc = rng.weighted([("herd", 30), ("two", 25), ("during", 15), ("reload", 10), ("expire", 10), ("stale", 15)])
+        sc = rng.weighted([("herd", 30), ("two", 25), ("during", 15), ("reload", 10), ("expire", 10), ("stale", 15), ("tpause", 10)])
         m = 1 + rng.below(6)
         k = rng.below(8)
         ttl, grace = "-", "-"
@@ -247,6 +251,8 @@ class LoaderConc(Engine):
             args = [k, m, 1 + rng.below(4)]
         elif sc == "reload":
             args = [k, m]
+        elif sc == "tpause":
+            args = [k, rng.pick([1, 3])]
         elif sc == "expire":
             t = int(ttl)
             g = int(grace) if grace != "-" else 0
@@ -257,10 +263,8 @@ class LoaderConc(Engine):
         return " ".join(["conc", L, H, ttl, grace, str(sh), sc] + [str(a) for a in args])
 
     def split(self, line):
-        return line.split(), []
-
-    def join(self, header, ops):
-        return " ".join(header)
+        t = line.split()
+        return t[:6], [t[6:]]
 
     def shape(self, line):
         t = line.split()
@@ -293,10 +297,15 @@ class LoaderConc(Engine):
                 kv, n = e.split("*")
                 k, v = kv.split(":")
                 rets.setdefault(int(k), {})[int(v)] = int(n)
+        if parts[-1].startswith("early"):
+            parts = parts[:-1]
         runs, res, cc = parse_tail(parts[1:])
         last = parts[-1].split()
         hang, panic = int(last[1]), int(last[3])
-        if hang:
+        if hang and sc == "tpause":
+            hits.append(("C15:section-order", "with the loader task parked between its sections a new caller could neither hit nor join the pending load "
+                         "(the task holds a lock where none should be held, or map-write / marker-removal order changed); hang=%d" % hang))
+        elif hang:
             hits.append(("C15:hang", "%d caller(s)/task(s) still blocked after the loader returned" % hang))
         if panic:
             hits.append(("panic", "%d caller(s) panicked" % panic))
@@ -331,6 +340,8 @@ class LoaderConc(Engine):
             expect(args[0], 2, [args[1], args[1]])
         elif sc == "stale":
             expect(args[0], 2, [1 + args[1], 1])
+        elif sc == "tpause":
+            expect(args[0], 1, [2])
         elif sc == "late":
             # two concurrent callers of one key, nothing invalidated: one load, one value
             expect(args[0], 1, [2], late=True)
